@@ -442,6 +442,21 @@ def bi_map(e, st, args, kw, node):
     return st, st.new_list(r)
 
 
+def bi_p_tqdm_p_imap(e, st, args, kw, node):
+    """p_tqdm.p_imap(f, items, num_cpus=None, disable=...): ASSUMED to return f(x) for every item, in input order, for every worker count;
+    a process pool needs at least one worker (multiprocessing.Pool raises ValueError otherwise): precondition on num_cpus"""
+    e.assumptions.add('p_tqdm.p_imap(f, items, num_cpus): the results f(x) in input order for every worker count; requires num_cpus None or >= 1')
+    nc = kw.get('num_cpus')
+    if nc is not None and not isinstance(nc, VNone):
+        site = e.site(st, 'call')
+        if isinstance(nc, VOpt):
+            cond = z3.Or(nc.none, e.num(nc.val) >= 1)
+        else:
+            cond = e.num(nc) >= 1
+        e.check(st, cond, f"safety[{site}]::p_imap::worker_count_none_or_at_least_one", 'safety')
+    return bi_map(e, st, args[:2], {}, node)
+
+
 # ---------------------------------------------------------------------------------------------- itertools
 def _first_failing(e, st, pred, l, name):
     """c = number of leading elements satisfying pred (facts quantified over absolute indices)"""
